@@ -205,6 +205,9 @@ def run_sqlite(case, ctx, d):
                 raise Violation("model.edges", f"before closing: all_edges {before['all_edges']} != inserted {want_edges}")
             if before["use_latlon"] != latlon or before["metric_module"] != ("dist_latlon" if latlon else "dist_euclidean"):
                 raise Violation("model.flag", f"metric flag before closing: {before['use_latlon']}/{before['metric_module']}, created with {latlon}")
+            for key in ("crs_xy", "crs_lonlat"):
+                if case.get(key) and before.get(key) != case[key]:
+                    raise Violation("model.crs", f"{key} before closing is {before.get(key)!r}, the map was created with {case[key]!r}")
             m.db.close()
             if case.get("other_process"):
                 res = answers_in_other_process(os.path.join(d, "stored.sqlite"), case["queries"])
@@ -278,6 +281,9 @@ def run_pickle(case, ctx, d):
                 raise Violation("reopen.use_latlon", f"cycle {reopens}: metric flag {latlon} reloaded as {m2.use_latlon}/{m2.distance.__module__}")
             if m2.crs_lonlat != m.crs_lonlat or m2.crs_xy != m.crs_xy or m2.name != m.name:
                 raise Violation("reopen.crs", f"cycle {reopens}: projection settings changed")
+            for key in ("crs_xy", "crs_lonlat"):
+                if case.get(key) and getattr(m, key) != case[key]:
+                    raise Violation("model.crs", f"{key} before dump is {getattr(m, key)!r}, the map was created with {case[key]!r}")
             want_nodes = sorted(nodes.items(), key=repr)
             got_nodes = sorted(((l, t2(p)) for l, p in m2.all_nodes()), key=repr)
             if got_nodes != want_nodes:
